@@ -1,7 +1,11 @@
 package ysgo
 
 import (
+	"strings"
+
+	"github.com/remieven/ysgo/internal/container"
 	"github.com/remieven/ysgo/internal/rng"
+	"github.com/remieven/ysgo/internal/tree"
 	"github.com/remieven/ysgo/variable"
 )
 
@@ -86,4 +90,33 @@ func vCopyValue(v *variable.Value) variable.Value {
 		w.String = &x
 	}
 	return w
+}
+
+// vBaseRunner: every runner the harnesses use comes out of the real constructor and then has the fields
+// the harness models overwritten. Building the struct literally would leave fields a change may add
+// (and initialise in the constructor) at their zero value and so raise alarms on correct code. Under the
+// engine tree.FromReader is the contract stub vStubFromReader; natively the one-line script is parsed.
+const vMinimalScript = "title: n0\n---\nL\n===\n"
+
+func vBaseRunner(st variable.Storer) *DialogueRunner {
+	vDialogues[vMinimalScript] = &tree.Dialogue{Nodes: []tree.Node{{
+		Headers:    map[string]string{"title": "n0"},
+		Statements: []*tree.Statement{{LineStatement: &tree.LineStatement{Text: &tree.LineFormattedText{Elements: []*tree.LineFormattedTextElement{{Text: "L"}}}}}},
+	}}}
+	dr, err := NewDialogueRunner(st, "a", strings.NewReader(vMinimalScript))
+	if err != nil || dr == nil {
+		vAssume(false)
+	}
+	return dr
+}
+
+// vRunnerAt: a constructor-built runner over dialogue d whose continuation is exactly stmts.
+func vRunnerAt(st variable.Storer, d *tree.Dialogue, node string, stmts ...*tree.Statement) *DialogueRunner {
+	dr := vBaseRunner(st)
+	dr.dialogue = d
+	stack := container.Stack[*statementQueue]{}
+	stack.Push(&statementQueue{statements: stmts})
+	dr.statementsToRun = stack
+	dr.currentNode = node
+	return dr
 }
